@@ -111,10 +111,10 @@ CLAIMED = {
         note=TRUST + LOOP + "; random.uniform axiom; defects D7/D8 repaired by fix commits 48521a4, b7551db",
     ),
     "C15": dict(
-        category="other",
-        text="queue_send and SendCollector are proved over an arbitrary queue state: zero timeout sends at once alone; otherwise the entry joins the open collector of exactly its destination behind earlier entries (a new collector with one timer if none is open), whose window closes no later than timeout after queueing; the closing window sends the entries once, in order, to the collector's destination and refuses later entries. Entries already waiting per collector bounded to 0..1, hence level other.",
+        category="proof",
+        text="queue_send and SendCollector are proved over an arbitrary queue state: zero timeout sends at once alone; otherwise the entry joins the open collector of exactly its destination behind earlier entries (a new collector with one timer if none is open), whose window closes no later than timeout after queueing; the closing window sends everything queued once, in queueing order, to the collector's destination and refuses later entries; stop()/connection_lost() keep pending collectors. An open collector holds arbitrarily many earlier entries (list with symbolic prefix).",
         design_ref="DESIGN.md 4/C15",
-        technique="postconditions over the event-loop model by symbolic execution of the real AST + SMT; bounded queue shape",
+        technique="postconditions over the event-loop model by symbolic execution of the real AST + SMT; unbounded queue contents",
         note=TRUST + LOOP,
     ),
     "C10": dict(
